@@ -11,6 +11,7 @@ import (
 	"fmt"
 	"sort"
 	"strings"
+	"sync"
 
 	"github.com/anz-bank/sysl/pkg/exporter"
 	"github.com/anz-bank/sysl/pkg/importer"
@@ -349,6 +350,7 @@ func c12CheckOpenAPI3(res *Result, in map[string]any, a *xApp, out []byte, mode 
 	if doc.Components != nil {
 		schemas = doc.Components.Schemas
 	}
+	model := c12ModelAnswers(a)
 	for _, t := range a.Types {
 		sr := schemas[t.Name]
 		if sr == nil || sr.Value == nil {
@@ -362,14 +364,8 @@ func c12CheckOpenAPI3(res *Result, in map[string]any, a *xApp, out []byte, mode 
 				got = append(got, fmt.Sprint(e))
 			}
 			// what Export.exportEnum says the schema lists (every declared value once, by ascending number)
-			var items []any
-			for k, e := range t.Enum {
-				items = append(items, []any{t.Nums[k], e})
-			}
-			var want []string
-			if rep, err := RunOracle([]any{map[string]any{"op": "export.enum", "items": items}}); err == nil && len(rep) == 1 {
-				want = mstrs(rep[0], "values")
-			} else {
+			want, ok := model["enum:"+t.Name]
+			if !ok {
 				viol("oracle-failed", "export.enum")
 			}
 			if strings.Join(got, ",") != strings.Join(want, ",") {
@@ -396,16 +392,10 @@ func c12CheckOpenAPI3(res *Result, in map[string]any, a *xApp, out []byte, mode 
 		sort.Strings(gotReq)
 		sort.Strings(wantReq)
 		// Export.exportTuple's `required` (the sorted names of the non-optional fields) is what is expected
-		var fl []any
-		for _, f := range t.Fields {
-			fl = append(fl, []any{f.Name, f.Opt})
-		}
-		if rep, err := RunOracle([]any{map[string]any{"op": "export.required", "fields": fl}}); err == nil && len(rep) == 1 {
-			if m := mstrs(rep[0], "required"); strings.Join(m, ",") != strings.Join(wantReq, ",") {
-				viol("model-census-mismatch", fmt.Sprintf("type %s: the model requires %v, the census %v", t.Name, m, wantReq))
-			}
-		} else {
+		if m, ok := model["required:"+t.Name]; !ok {
 			viol("oracle-failed", "export.required")
+		} else if strings.Join(m, ",") != strings.Join(wantReq, ",") {
+			viol("model-census-mismatch", fmt.Sprintf("type %s: the model requires %v, the census %v", t.Name, m, wantReq))
 		}
 		if strings.Join(gotReq, ",") != strings.Join(wantReq, ",") {
 			viol("required-differs", fmt.Sprintf("type %s: required %v, the non-optional fields are %v", t.Name, gotReq, wantReq))
@@ -670,4 +660,48 @@ func c12Reimport(res *Result, in map[string]any, a *xApp, doc []byte, name strin
 			res.Violate(Violation{Sig: "reimport-endpoint-missing", What: "endpoint " + e.Verb + " " + e.Path + " is missing after export and re-import", Input: in})
 		}
 	}
+}
+
+var c12ModelCache = map[*xApp]map[string][]string{}
+var c12ModelMu sync.Mutex
+
+// c12ModelAnswers: the Lean model's enum value lists and required lists for the types of an application (one oracle
+// run per application, reused for every format and encoding)
+func c12ModelAnswers(a *xApp) map[string][]string {
+	c12ModelMu.Lock()
+	defer c12ModelMu.Unlock()
+	if m, ok := c12ModelCache[a]; ok {
+		return m
+	}
+	out := map[string][]string{}
+	var reqs []any
+	var keys []string
+	for _, t := range a.Types {
+		if t.Enum != nil {
+			var items []any
+			for k, e := range t.Enum {
+				items = append(items, []any{t.Nums[k], e})
+			}
+			reqs = append(reqs, map[string]any{"op": "export.enum", "items": items})
+			keys = append(keys, "enum:"+t.Name)
+			continue
+		}
+		fl := []any{}
+		for _, f := range t.Fields {
+			fl = append(fl, []any{f.Name, f.Opt})
+		}
+		reqs = append(reqs, map[string]any{"op": "export.required", "fields": fl})
+		keys = append(keys, "required:"+t.Name)
+	}
+	if rep, err := RunOracle(reqs); err == nil && len(rep) == len(keys) {
+		for i, k := range keys {
+			if strings.HasPrefix(k, "enum:") {
+				out[k] = mstrs(rep[i], "values")
+			} else {
+				out[k] = mstrs(rep[i], "required")
+			}
+		}
+	}
+	c12ModelCache[a] = out
+	return out
 }
